@@ -47,6 +47,7 @@ void vfs_set(int node, const char *data, size_t len) {
   if (len > VFS_CONTENT) len = VFS_CONTENT;
   memcpy(vfs[node].data, data, len); vfs[node].len = len;
 }
+void vfs_set_lines(int node, const short *ends, int n) { (void)node; (void)ends; (void)n; }
 void vfs_own(int node, uid_t uid, gid_t gid) { vfs[node].uid = uid; vfs[node].gid = gid; }
 static void put_file(const char *p, const char *d, size_t l) {
   FILE *f = fopen(p, "wb");
